@@ -304,6 +304,12 @@ pub fn run_check(spec: CheckSpec, tier: &str, emit_findings: Option<&str>) -> i3
         violation_lines.len(),
         t0.elapsed().as_secs_f64()
     );
+    // coverage collapse: when a large part of the family hits the iteration cap or the wall
+    // cap, "no violation" says nothing about the property. Not a verdict - a machinery exit.
+    if exit == 0 && (capped + timed_out) * 4 > evals {
+        eprintln!("MACHINERY: coverage collapsed ({} capped + {} timed out of {} programs); no verdict", capped, timed_out, evals);
+        return 2;
+    }
     exit
 }
 
